@@ -190,8 +190,15 @@ def rr_rules(ctx, A):
                'an explicit address below the current end is rejected: is_none(checked_sub(address, end)) ⇒ Err', loc(pc['span']), show(cs)[:200])
         addr, base = cs[2][0], cs[2][1]
         elem_addr = unwrap_all(addr)
-        ok_e1 = last_acc(base) and any(is_call(x, 'Iterator::next') for x in walk(addr)) and amount == ('payload', cs, 'Some', 0) or \
-            (last_acc(base) and unwrap_all(amount) == cs)
+        # the address is the element's own Option<usize>, unfiltered: a pure access path from the loop element
+        pure_addr = all(re.search(r'Iterator::next$|IntoIterator::into_iter$', c_[3]) for c_ in calls_in(addr)) and \
+            not any(isinstance(x, tuple) and x[0] in ('bin', 'un', 'cast') for x in walk(addr))
+        ok_e1 = pure_addr and (last_acc(base) and any(is_call(x, 'Iterator::next') for x in walk(addr)) and amount == ('payload', cs, 'Some', 0) or
+                               (last_acc(base) and unwrap_all(amount) == cs))
+        # and the padding branch is entered for every Some(address): the switch that guards it tests the element's field itself
+        swp = [s_ for s_ in rr.switches() if s_['cond'][0] == 'discr' and any(rr.dominates(tgt, pc['block']) and lab == 'Some' for lab, tgt in s_['edges'])
+               and any(is_call(x, 'Iterator::next') for x in walk(s_['cond'][1])) and strip(s_['cond'][1])[0] == 'field']
+        ok_e1 = ok_e1 and len(swp) >= 1
         ctx.ob(['C01', 'C03'], 'R-EXPR', 'E1|padding-amount', ok_e1,
                'padding before an addressed field is exactly address − current end (same checked_sub result): %s' % show(amount)[:200], loc(pc['span']))
         # the padding is for the same loop element as the field that follows
